@@ -6,6 +6,7 @@ import (
 	"github.com/mit-pdos/go-journal/common"
 	"github.com/mit-pdos/go-journal/util"
 	"github.com/mit-pdos/go-nfsd/fstxn"
+	"github.com/mit-pdos/go-nfsd/util/verifhook"
 )
 
 type ShrinkerSt struct {
@@ -43,6 +44,7 @@ func (shrinkst *ShrinkerSt) DoShrink(inum common.Inum) bool {
 	var ok = true
 	for more {
 		op := fstxn.Begin(shrinkst.fsstate)
+		verifhook.Emit(verifhook.EvShrinkIter, op, inum)
 		ip := op.GetInodeInumFree(inum)
 		if ip == nil {
 			panic("shrink")
